@@ -288,7 +288,7 @@ Definition parse_frac (s : bytes) : option Z :=
       else None
   end.
 
-(* fractionalSecondsLen (after fix: 6223592f2): '.' or ',' followed by one or more digits, else 0 *)
+(* fractionalSecondsLen (after fix: 537908ee1): '.' or ',' followed by one or more digits, else 0 *)
 Fixpoint count_digits (s : bytes) : nat :=
   match s with c :: t => if is_digit c then S (count_digits t) else O | [] => O end.
 Definition frac_len (s : bytes) : nat :=
@@ -387,7 +387,12 @@ Definition assemble (a : ptm) : option Z :=
 (* strpntime(input, format) in UTC: nanoseconds since the epoch.
    Modelled domain: format = literal prefix, then numeric codes Y m d H M S j each followed by a literal whose
    first byte is not a digit (the last one may have none). *)
-Definition lit_ok (l : bytes) : bool := match l with [] => true | c :: _ => negb (is_digit c) && negb (Ascii.eqb c ".") && negb (Ascii.eqb c ",") end.
+Definition lit_head_ok (l : bytes) : bool := match l with [] => true | c :: _ => negb (is_digit c) && negb (Ascii.eqb c ".") && negb (Ascii.eqb c ",") end.
+(* the literal is handed to time.Parse as part of the LAYOUT, where digits (1 2 3 4 5 01.. 15 2006) and the words Jan Mon MST
+   PM pm are fields, not text (known finding strptime-literal-read-as-layout): literals with a digit or J M P p are outside the model *)
+Definition lit_plain (l : bytes) : bool :=
+  forallb (fun c => negb (is_digit c) && negb (existsb (Ascii.eqb c) ["J"; "M"; "P"; "p"])) l.
+Definition lit_ok (l : bytes) : bool := lit_head_ok l && lit_plain l.
 Fixpoint parts_in_model (ps : list (ascii * bytes)) : bool :=
   match ps with
   | [] => true
